@@ -81,6 +81,7 @@ class MultiplyLoop:
             raise Unsupported("G-mode: the product accumulator is not initialised before the loop")
         I.path.require(real_term(p0) == gmode.bigprod(I, f, z3.IntVal(0)), "loop-invariant:multiply/initially")
         gmode.register_zero_lemma(I, f, sl.length)
+        gmode.bigprod(I, f, sl.length)      # the whole product is in play on every path (links of its body: cons lemma)
 
     def assume_at(self, I, env, sl, st, j):
         f = self.body(I, sl)
@@ -143,6 +144,20 @@ class AccumulateLoop:
         qm(I).add_index(s, sl.length)
         I.path.require(z3.Implies(z3.And(s >= 0, s < j1), spec.den(I, fam.child(I, s), pt).D),
                        "loop-invariant:accumulate/children-so-far-defined", qfacts=True)
+
+
+class MultiplyAccumulateLoop(AccumulateLoop):
+    """Multiply._compute_numeric_partials (a loop over enumerate(children)):
+    acc.get(n,0) == acc0.get(n,0) + m * sum_{i<j} dV_i(n) * prod_{u != i} V_u."""
+    def _view(self, I, env, sl, j):
+        from .contracts import acc_view
+        acc, m, pt = self._parts(I, env)
+        old = I.ghost["accloop"]["old"]
+        fam = sl.family
+        mt = real_term(m)
+        dk = lambda t: spec.den(I, fam.child(I, t), pt)
+        return lambda n: z3.simplify(acc_view(I, old, n) + mt * gmode.bigsum(
+            I, lambda t: dk(t).dV(n) * gmode.bigprod_without(I, lambda u: dk(u).V, t, fam.length), j))
 
 
 class SynthAccumulateLoop:
@@ -211,4 +226,5 @@ REGISTRY = {
     ("math_functions.multiply", 0): MultiplyLoop(),
     ("Add._compute_numeric_partials", 0): AccumulateLoop(),
     ("Add._compute_synthetic_partials", 0): SynthAccumulateLoop(),
+    ("Multiply._compute_numeric_partials", 0): MultiplyAccumulateLoop(),
 }
